@@ -52,11 +52,13 @@ type PaymentService struct {
 }
 
 func (p *PaymentService) verify(sig string, method string, wallet string, nonce int64, args ...interface{}) error {
-	if err := p.NonceStore.CheckAndSaveNonce(wallet, nonce); err != nil {
+	if err := request.Verify(sig, method, wallet, nonce, args...); err != nil {
 		return pool.VerifyFailedError{Cause: err, Method: method}
 	}
 
-	if err := request.Verify(sig, method, wallet, nonce, args...); err != nil {
+	// The nonce is only checked and saved after the signature verified, so
+	// that a forged request cannot consume the wallet's nonce.
+	if err := p.NonceStore.CheckAndSaveNonce(wallet, nonce); err != nil {
 		return pool.VerifyFailedError{Cause: err, Method: method}
 	}
 	return nil
